@@ -77,6 +77,10 @@ func (r *Reqs) Previous(ctx context.Context, p module.Version) (module.Version, 
 			selected = v.Version
 		}
 	}
+	if selected == "" {
+		// There is no earlier version. The MVS algorithms spell that "none".
+		selected = "none"
+	}
 	return module.Version{Path: p.Path, Version: selected}, nil
 }
 
